@@ -65,7 +65,7 @@ def is_prompt(events, w):
 class C09(Prop):
     pid = "C09"
     lean_module = "RxModel.Props.C09"
-    extra_modules = ("RxModel.Props.C09C",)
+    extra_modules = ("RxModel.Props.C09C", "RxModel.Props.C09S")
     design_ref = "DESIGN.md §6 C09"
     rule = ("debounce / throttle (three edge modes) / buffer_with_time / buffer_with_count_and_time over a hot subject "
             "emitting the tagged items 1,2,3,…; (a) prompt unit-step schedules with every gap pattern shorter than, "
@@ -150,7 +150,13 @@ class C09(Prop):
                     evs.append(["emit", str(rng.randint(0, 1)), rng.choice(["c", ["e", "3"]])])
             out.append(Case("pipe", rng.choice(["local", "threads"]),
                             [("pipe", [["sample", ["hot", "0"], ["hot", "1"]]])], evs, {"kind": "sample"}))
-        return tg.with_units(seed, out)
+        out = tg.with_units(seed, out)
+        # the emitter against the window task on two REAL OS threads (suite `coop`, every preemption point of the first):
+        # "for every timing of the source against the timers" (seed C09-8: throttle looked at the window before it stored
+        # its candidate — the item is stranded when the window task runs in between)
+        from .. import coopgen as cg
+        out += cg.rate_cases(tier)
+        return out
 
     @staticmethod
     def _zero_window(node):
@@ -161,10 +167,16 @@ class C09(Prop):
         return node
 
     def compare_from(self, case):
+        if case.suite == "coop":
+            from .. import coopgen as cg
+            return 0 if cg.modelled(case) else len(case.events)
         # two subscriptions of one pipeline value have no chain model: only the oracle decides
         return len(case.events) if case.field("twosubs") else 0
 
     def oracle(self, case, lines, model_lines=None):
+        if case.suite == "coop":
+            from .. import coopgen as cg
+            return cg.rate_oracle(case, lines)
         if not case.field("twosubs"):
             return self._oracle1(case, lines)
         # `o=… o2=… live=…`: every clause must hold for EACH of the two subscriptions by itself
@@ -286,6 +298,9 @@ class C09(Prop):
         return None
 
     def signature(self, case, failure):
+        if case.suite == "coop":
+            from .. import coopgen as cg
+            return cg.signature(case, failure)
         node, hs = case.field("pipe")[0], []
         while isinstance(node, list) and node:
             hs.append(node[0])
@@ -294,6 +309,9 @@ class C09(Prop):
         return f"{failure['kind']}|{case.suite}|{','.join(ops)}"
 
     def shrink_candidates(self, case):
+        if case.suite == "coop":
+            from .. import coopgen as cg
+            return cg.shrink_candidates(case)
         if case.suite != "time":
             return super().shrink_candidates(case)
         return [c for c in tg.time_shrink(case) if c.field("pipe")[0][0] != "hot"]
